@@ -222,6 +222,29 @@ def sweep(ctx, N):
                           dict(desc, got=repr(np.ravel(val)[i]), exact=repr(np.ravel(exact)[i]), error=float(err[i]), error_estimate=float(est[i])))
         elif not known_region(kname, order, ratio):
             worst = max(worst, r)
+    # step options that push the smallest steps below the spacing of the floats around z0 (z0 + h == z0: f is NaN on the LAST rows only)
+    for it in range(max(10, N // 12)):
+        g = G(rng)
+        z0 = float(rng.choice([3.0, -1.5, 0.7, 2.2]))
+        kname = str(rng.choice(['sin(w)/w', 'expm1(w)/w', 'w/sin(w)']))
+        s = KERNELS[kname]
+        cfg = [dict(offset=-6, step_ratio=4.0), dict(offset=-12, step_ratio=2.0), dict(offset=-3, step_ratio=16.0), dict(scale=1.0), dict(step=3e-16), dict(offset=-6, step_ratio=4.0, num_steps=31)][it % 6]
+        method = str(rng.choice(['above', 'below']))
+        order = int(rng.integers(1, 5))
+        desc = {'kind': 'tiny-steps', 'g': g.show(), 'kernel': kname, 'z0': z0, 'method': method, 'order': order, 'options': cfg}
+        try:
+            with np.errstate(all='ignore'), warnings.catch_warnings():
+                warnings.simplefilter('ignore')
+                val, info = Limit(lambda z: g(z) * s(z - z0), method=method, order=order, full_output=True, **cfg)(z0)
+        except Exception as ex:   # noqa
+            ctx.violation('raises:tiny-steps', 'Limit(..., %r)(%r) raises %r' % (cfg, z0, ex), desc)
+            continue
+        ctx.count(1, ('sweep', 'tiny-steps', it % 6))
+        exact = float(g(z0))
+        v, e = float(np.ravel(val)[0]), float(np.ravel(info.error_estimate)[0])
+        if not (np.isfinite(v) and np.isfinite(e) and abs(v - exact) <= K * e + FLOOR * max(1.0, abs(exact))):
+            ctx.violation('envelope:tiny-steps', 'Limit of g(z) * %s at z0 = %r with %r (method=%r, order=%d): got %r with error estimate %r, exact %r (the smallest steps vanish next to z0: the last rows of estimates are NaN)' % (
+                kname, z0, cfg, method, order, v, e, exact), dict(desc, got=v, error_estimate=e, exact=exact))
     ctx.cov['sweep_worst_ratio_to_bound'] = worst
 
 
